@@ -333,6 +333,9 @@ pub struct Decoder {
     pub keep_mtrace: bool,
     /// number of chunks that arrived on a csid while another csid had a partial message
     pub interleaved_chunks: u64,
+    /// chunk streams that currently hold a partial message (kept so that the interleaving
+    /// observation does not cost a pass over all chunk streams per chunk)
+    n_partial: usize,
     /// optional per-chunk log (stream offset of the chunk, basic header length, fmt, ext?, payload bytes)
     pub chunk_log: Option<Vec<ChunkLog>>,
 }
@@ -364,6 +367,7 @@ impl Decoder {
             matrix: [[[0; 2]; 2]; 4],
             keep_mtrace: true,
             interleaved_chunks: 0,
+            n_partial: 0,
             chunk_log: None,
         }
     }
@@ -554,7 +558,7 @@ impl Decoder {
         let payload = &b[hdr..hdr + take];
 
         // other chunk streams with a partial message => this chunk is interleaved
-        if self.cs.iter().any(|(k, v)| *k != csid && v.partial.is_some()) {
+        if self.n_partial > continuing as usize {
             self.interleaved_chunks += 1;
         }
         self.matrix[fmt as usize][has_ext as usize][continuing as usize] += 1;
@@ -607,6 +611,7 @@ impl Decoder {
             let mut v = Vec::with_capacity((len as usize).min(1 << 20));
             v.extend_from_slice(&payload);
             st.partial = Some(v);
+            self.n_partial += 1;
         }
         if fmt == 0 && continuing {
             // a full header on a continuation chunk restates the same values
@@ -616,6 +621,7 @@ impl Decoder {
         let done = st.partial.as_ref().unwrap().len() == st.len as usize;
         let msg = if done {
             let data = st.partial.take().unwrap();
+            self.n_partial -= 1;
             let m = Msg {
                 type_id: st.type_id,
                 msid: st.msid,
